@@ -7,3 +7,9 @@ pub(crate) mod c02 {
     use super::super::*;
     include!(concat!(env!("LIBP2P_VERIF"), "/units/C02/counters.rs"));
 }
+
+pub(crate) mod c05 {
+    #[allow(unused_imports)]
+    use super::super::*;
+    include!(concat!(env!("LIBP2P_VERIF"), "/units/C05/check_peer_id.rs"));
+}
